@@ -120,23 +120,15 @@ Print Assumptions C19_murmur3_is_reference.
 
 (* ---- Bloom filter -------------------------------------------------------------------------------------------------- *)
 
-(* the full statement (every size 0..36000, every hash count, every tweak): the constructor succeeds, add_item
+(* the full statement — every size 0..36000 (the empty filter included: add_item returns at once, as Bitcoin
+   Core's insert does), every hash count (k <= 0: nothing set), every tweak: the constructor succeeds, add_item
    succeeds and leaves exactly BIP37's insert of the element *)
-Definition C19_bloom_statement : Prop := bloom_statement.
-
-(* refuted by the faithful model: BloomFilter(0, 1, 0).add_item(b"") raises ZeroDivisionError (`% self.bit_count`);
-   Bitcoin Core's CBloomFilter::insert is a no-op on an empty filter *)
-Theorem C19_bloom_refuted_empty_filter : ~ C19_bloom_statement.
-Proof. exact bloom_refuted. Qed.
-Print Assumptions C19_bloom_refuted_empty_filter.
-
-(* everywhere else it holds; the only exclusion is `empty_filter_with_hashes size k := size = 0 /\ 0 < k` *)
-Theorem C19_bloom_partial : forall (size k tweak : Z) (item : bytes),
-  0 <= size <= 36000 -> Z.of_nat (length item) < 2 ^ 32 -> ~ empty_filter_with_hashes size k ->
+Theorem C19_bloom_statement : forall (size k tweak : Z) (item : bytes),
+  0 <= size <= 36000 -> Z.of_nat (length item) < 2 ^ 32 ->
   exists st st', bloom_init size k tweak = Ret st /\ Murmur.add_item st item = Ret st' /\
                  bf_bytes st' = MurmurSpec.insert (repeat x00 (Z.to_nat size)) k tweak item.
-Proof. exact bloom_partial. Qed.
-Print Assumptions C19_bloom_partial.
+Proof. exact bloom_statement_holds. Qed.
+Print Assumptions C19_bloom_statement.
 
 (* add_item on ANY non-empty filter state (whatever is already in it) = BIP37 insert; size, k, tweak unchanged *)
 Theorem C19_bloom_add_item_is_bip37_insert : forall (st : bloom) (item : bytes),
